@@ -38,7 +38,8 @@ LEVEL_NOTE = ("Trusted: Lean kernel + {propext, Classical.choice, Quot.sound}; h
               "of CigarOp/_str_to_op/reader branches); numpy slicing/where/argsort/unique modelled by documented semantics; align_optimal "
               "is C08's subject and enters as a hypothesis; UPGMA/float distances only through 'every leaf once' on the returned tree.")
 RULE = ("seeded valid traces of 2-4 sequences (leading/trailing gaps, insertions next to deletions, start offsets, clipped ends, "
-        "index jumps, empty sequences) through every conversion/helper op against the Lean model, a 70000-symbol alphabet stream "
+        "index jumps, empty sequences, rows over different alphabets) through every conversion/helper op against the Lean model, FASTA "
+        "alignment text with 1-3 additional gap characters read in every order, a 70000-symbol alphabet stream "
         "(codes around 2^15/2^16) for get_codes/get_symbols/identity/'='/'X', all 16 CIGAR option combinations with introns placed "
         "inside reference gaps; a malformed stream (out-of-range indices, double-gap columns, introns outside gaps, broken CIGAR text); "
         "align_multiple on 2-6 sequences of length 1-12 with linear/affine gaps, terminal penalty on/off, default and explicit "
